@@ -90,6 +90,23 @@ func (m *Mutex) Unlock() {
 	}
 }
 
+// Once replaces sync.Once: callers that arrive while the first one is still
+// inside f wait on a mutex the scheduler knows (a task must never block on a
+// real lock while its holder is parked).
+type Once struct {
+	m    Mutex
+	done bool
+}
+
+func (o *Once) Do(f func()) {
+	o.m.Lock()
+	defer o.m.Unlock()
+	if !o.done {
+		defer func() { o.done = true }()
+		f()
+	}
+}
+
 // RWMutex replaces sync.RWMutex.
 type RWMutex struct {
 	mu sync.RWMutex
